@@ -561,10 +561,26 @@ fn rd_obs(r: &RdRun) -> String {
     format!("{} stop={} left={}", r.results.join("|"), r.stop, r.left)
 }
 
-/// what a read-to-the-end over exactly these written lines must return (the property's statement)
-fn expected_lines(items: &[(Part, Item)], fail: bool, delims: &'static [PacketLineRef<'static>]) -> (Vec<String>, String) {
-    let mut out = Vec::new();
-    for (_, it) in items {
+/// What a script of calls over exactly these written lines must return (the property's statement,
+/// spelled out independently of the model): lines come back unchanged and in order; `peek_line`
+/// shows the next line without consuming it; the first delimiter ends the iteration (`None`) and
+/// is reported by `stopped_at`; with `fail_on_err_lines` an `ERR ` line ends it with an error;
+/// after the last line the reader reports EOF.
+fn expected_script(items: &[(Part, Item)], fail: bool, delims: &'static [PacketLineRef<'static>], script: &str) -> (Vec<String>, String) {
+    struct St<'a> {
+        items: &'a [(Part, Item)],
+        idx: usize,
+        done: bool,
+        peeked: Option<String>,
+        stop: String,
+    }
+    fn next(st: &mut St<'_>, fail: bool, delims: &'static [PacketLineRef<'static>]) -> String {
+        let Some((_, it)) = st.items.get(st.idx) else {
+            st.stop = "-".into();
+            return "io:eof".into();
+        };
+        st.idx += 1;
+        st.stop = "-".into();
         let as_ref = match it {
             Item::Flush => PacketLineRef::Flush,
             Item::Delim => PacketLineRef::Delimiter,
@@ -572,19 +588,63 @@ fn expected_lines(items: &[(Part, Item)], fail: bool, delims: &'static [PacketLi
             Item::Data(d) => PacketLineRef::Data(d),
         };
         if delims.iter().any(|d| *d == as_ref) {
-            out.push("none".to_string());
-            return (out, item_obs(it));
+            st.done = true;
+            st.stop = item_obs(it);
+            return "none".into();
         }
         if let (true, Item::Data(d)) = (fail, it) {
             if d.starts_with(b"ERR ") {
-                out.push(format!("io:errline:{}", bobs(&d[4..])));
-                return (out, "-".into());
+                st.done = true;
+                return format!("io:errline:{}", bobs(&d[4..]));
             }
         }
-        out.push(format!("l:{}", item_obs(it)));
+        format!("l:{}", item_obs(it))
     }
-    out.push("io:eof".into());
-    (out, "-".into())
+    fn read(st: &mut St<'_>, fail: bool, delims: &'static [PacketLineRef<'static>]) -> String {
+        if st.done {
+            return "none".into();
+        }
+        if let Some(p) = st.peeked.take() {
+            return p;
+        }
+        next(st, fail, delims)
+    }
+    let mut st = St {
+        items,
+        idx: 0,
+        done: false,
+        peeked: None,
+        stop: "-".into(),
+    };
+    let mut out = Vec::new();
+    for ch in script.chars() {
+        match ch {
+            'r' => out.push(read(&mut st, fail, delims)),
+            'p' => {
+                let x = if st.done {
+                    "none".to_string()
+                } else if let Some(p) = &st.peeked {
+                    p.clone()
+                } else {
+                    let x = next(&mut st, fail, delims);
+                    if x.starts_with("l:") {
+                        st.peeked = Some(x.clone());
+                    }
+                    x
+                };
+                out.push(format!("p{x}"));
+            }
+            _ => loop {
+                let x = read(&mut st, fail, delims);
+                let t = terminal(&x);
+                out.push(x);
+                if t {
+                    break;
+                }
+            },
+        }
+    }
+    (out, st.stop)
 }
 
 fn op_rd(rep: &mut Report, op: &str, a: &[&str]) -> Option<()> {
@@ -629,8 +689,8 @@ fn op_rd(rep: &mut Report, op: &str, a: &[&str]) -> Option<()> {
         );
     }
     // lines written by the encoders come back unchanged, in order
-    if let (Some(items), "*") = (&items, script) {
-        let (want, stop) = expected_lines(items, fail, delims);
+    if let Some(items) = &items {
+        let (want, stop) = expected_script(items, fail, delims, script);
         if want != run.results || stop != run.stop {
             rep.oracle_failure(
                 &format!("lines-roundtrip {}", fnv_key(op)),
